@@ -39,6 +39,8 @@ pub struct Snapshot {
     pub tx_frame: (u32, u32),
     pub tx_packet: (u32, u32),
     pub window: u32,
+    /// id of the oldest frame still in the victim's log
+    pub log_base: u32,
 }
 
 fn around(rng: &mut Rng, anchors: &[u32], w: u32) -> u32 {
@@ -217,8 +219,15 @@ pub fn hostile_frame(rng: &mut Rng, s: &Snapshot, next_in_order: &mut u32, captu
             };
             let groups = (0..n)
                 .map(|_| RAckGroup {
-                    base_id: around(rng, &[s.tx_frame.0, s.tx_frame.1], s.window),
-                    bitfield: *rng.pick(&[0u32, 1, 0x80000001, !0, 3, 0xFFFF]) ^ if rng.chance(0.3) { rng.u32() } else { 0 },
+                    // incl. groups that begin just below the oldest frame the victim still remembers
+                    base_id: if rng.chance(0.3) { s.log_base.wrapping_sub(rng.range(0, 33) as u32) } else { around(rng, &[s.tx_frame.0, s.tx_frame.1, s.log_base], s.window) },
+                    // incl. bitfields whose low bits are clear (claimed frames start above the base)
+                    bitfield: match rng.below(4) {
+                        0 => 1u32 << rng.below(32),
+                        1 => (!0u32) << rng.below(32),
+                        2 => rng.u32() << rng.below(32),
+                        _ => *rng.pick(&[0u32, 1, 2, 0x80000000, 0x80000001, !0, 0xFFFFFFFE, 3, 0xFFFF]),
+                    } ^ if rng.chance(0.15) { rng.u32() } else { 0 },
                     nonce: rng.chance(0.5),
                 })
                 .collect();
@@ -353,7 +362,7 @@ pub fn run_session(seed: u64, opts: &HostileOpts, out: &mut ScnOut, verbose: boo
         now_ns += dt;
         uv::time::set_virtual_ns(Some(now_ns));
 
-        let snap = Snapshot { rx_frame_base: hc.verif_rx_frame_base_id(), rx_packet_base: hc.verif_rx_packet_base_id(), tx_frame: hc.verif_tx_frame_ids(), tx_packet: hc.verif_tx_packet_ids(), window };
+        let snap = Snapshot { rx_frame_base: hc.verif_rx_frame_base_id(), rx_packet_base: hc.verif_rx_packet_base_id(), tx_frame: hc.verif_tx_frame_ids(), tx_packet: hc.verif_tx_packet_ids(), window, log_base: hc.verif_tx_frame_ids().1.wrapping_sub(hc.verif_frame_log_len() as u32) };
         let mut class = "";
         let bytes = match if profile != 0 && rng.chance(0.9) { pattern_frame(&mut rng, &snap, &mut next_in_order, profile, rx_alloc, &mut class) } else { None } {
             Some(b) => b,
